@@ -118,8 +118,16 @@ func (c12) Gen(r *Rand, idx int, tier string) interface{} {
 	}
 	if r.Pct(25) && total > 0 {
 		k := 1 + r.Intn(2)
+		if r.Pct(15) {
+			// more reports at once than the connection's error queue holds
+			k = 11 + r.Intn(5)
+		}
+		at := r.Intn(total)
 		for i := 0; i < k; i++ {
-			p.Unknown = append(p.Unknown, r.Intn(total))
+			if k <= 2 {
+				at = r.Intn(total)
+			}
+			p.Unknown = append(p.Unknown, at)
 		}
 	}
 	return p
@@ -262,6 +270,11 @@ func (c12) Run(plan interface{}, schedSeed uint64, replay []simrt.Choice, lenien
 			}
 			chans[c] = &chanInfo{live: true, setupSeq: simrt.Record("peer-setup", "", "", int64(c))}
 			ci = chans[c]
+			// the setup packet is the channel's first packet: the numbers go on from it
+			ci.haveNr, ci.nextNr = true, int(pk.H.PacketNr)
+			if len(pk.Body) != 0 || pk.H.Length != peer.HeaderSize {
+				wireViol = append(wireViol, fmt.Sprintf("bad-control-packet|SETUP for channel %d is not a header-only packet (%s)", c, pk.H))
+			}
 		case peer.BufClose:
 			if ci != nil {
 				ci.live = false
@@ -284,6 +297,12 @@ func (c12) Run(plan interface{}, schedSeed uint64, replay []simrt.Choice, lenien
 				}
 				wireViol = append(wireViol, fmt.Sprintf("wrong-channel-id|packet for channel %d which was never set up (%s)", c, pk.H))
 				return
+			}
+			if !ci.live && pk.H.Type != peer.BufClose && pk.H.Type != peer.BufSetup && p.CloseEarly == 0 {
+				wireViol = append(wireViol, fmt.Sprintf("packet-after-close|channel %d: packet sent after the channel's teardown (%s)", c, pk.H))
+			}
+			if pk.H.Type != peer.BufClose && pk.H.Type != peer.BufSetup && pk.H.Type != 15 && p.CloseEarly == 0 {
+				wireViol = append(wireViol, fmt.Sprintf("wrong-type|channel %d: request packet with message type %d (%s)", c, pk.H.Type, pk.H))
 			}
 			if ci.haveNr && int(pk.H.PacketNr) != ci.nextNr {
 				wireViol = append(wireViol, fmt.Sprintf("packet-number|channel %d: packet number %d, expected %d", c, pk.H.PacketNr, ci.nextNr))
@@ -361,6 +380,7 @@ func (c12) Run(plan interface{}, schedSeed uint64, replay []simrt.Choice, lenien
 		res[i] = &taskRes{}
 	}
 	var connErr, mainErr, connCloseErr string
+	var ch0Got []string
 	mainInvalid := 0
 	out := s.Run(func() {
 		conn, err := tds.NewConn(context.Background(), MkInfo(p.QueueSize, 5, false))
@@ -458,9 +478,14 @@ func (c12) Run(plan interface{}, schedSeed uint64, replay []simrt.Choice, lenien
 		// that queued connection errors are returned before the deadline error
 		dctx, dcancel := simrt.WithTimeout(context.Background(), time.Second)
 		for i := 0; i < 50; i++ {
-			_, err := ch0.NextPackage(dctx, true)
+			pkg, err := ch0.NextPackage(dctx, true)
 			if err != nil && strings.Contains(err.Error(), "invalid channel") {
 				mainInvalid++
+				continue
+			}
+			if err == nil && pkg != nil {
+				// nothing is ever sent to channel 0 in this world
+				ch0Got = append(ch0Got, Dump(pkg))
 				continue
 			}
 			break
@@ -512,6 +537,9 @@ func (c12) Run(plan interface{}, schedSeed uint64, replay []simrt.Choice, lenien
 		}
 		v.Sample = map[string]interface{}{"tasks": len(p.Tasks), "close_early": p.CloseEarly, "steps": out.Steps}
 		return v, out
+	}
+	for _, d := range ch0Got {
+		v.Violate("misrouted", "package delivered to channel 0", "channel 0, to which the server sent nothing, delivered %s", short(d, 200))
 	}
 	totalInvalid := mainInvalid
 	concurrentSetup := false
